@@ -19,8 +19,8 @@ def rule_N1(ctx, rid='N1'):
              'image of its argument (or by n_batch)')
     f = ctx.program.func('Sampler.evaluate_likelihood')
     cfg = cfg_of(f)
-    incs = [n for n in cfg.nodes if n.kind == 'stmt' and isinstance(n.ast, ast.AugAssign) and
-            dotted(n.ast.target) == 'self.n_like']
+    from ..exprs import aug_nodes
+    incs = [n for n in aug_nodes(cfg) if dotted(n.ast.target) == 'self.n_like']
     ctx.require(incs, 'evaluate_likelihood no longer increments n_like')
     ids = {n.id for n in incs}
     once = cfg.must_pass(cfg.entry.id, cfg.exit.id, ids) and \
